@@ -14,7 +14,18 @@ CLAIMED = {
                   'makes any coefficient differ from the PyWavelets basis-response form by more than 1e-9*gain (linear map, so the box is w.l.o.g.). Shapes/band order compared with the oracle. '
                   'Short signals, odd sizes, every mode are enumerated systematically, which the test-suite never does.', ref='4 C01'),
  'C02': dict(text='inverse(forward(x)) executed symbolically; per sample z3 shows equality with PyWavelets waverec(wavedec(x)) within 1e-9*gain and, where PyWavelets itself is PR, with x within 1e-7*gain, for every input.', ref='4 C02'),
+ 'C03': dict(text='DTCWTForward executed symbolically; per lowpass/subband element z3 shows equality with the basis-response form of the reference dtcwt.Transform2d.forward for every input; pyramid shapes compared.', ref='4 C03'),
+ 'C04': dict(text='DTCWTInverse(DTCWTForward(x)) executed symbolically; per sample z3 shows equality with the (even-extended) input within 1e-7*gain for every input; output shape checked.', ref='4 C04'),
  'C10': dict(text='inverse DWT executed on a free symbolic pyramid (not only transforms of signals); per sample z3 shows equality with the waverec basis-response form; None levels compared with zero-substitution of the full symbolic run and with the oracle.', ref='4 C10'),
+ 'C11': dict(text='DTCWTInverse executed on a free symbolic pyramid of reference shapes; per sample z3 shows equality with dtcwt.Transform2d.inverse; every absence mask (None / empty tensor for lowpass or any level) is compared with the reference given zeros.', ref='4 C11'),
+ 'C12': dict(text='get_dimensions5/6 checked for ALL integers by CrossHair (z3) against the axis specification; all 30 layouts (+negative aliases) forward == movedim(default) and inverse(layout) == default inverse on free symbolic pyramids; all skip/include masks and prefix consistency as exact identities between symbolic runs.', ref='4 C12',
+             technique='CrossHair symbolic execution (z3, unbounded integers) for the axis tables + symbolic execution on the tensor shim with z3 for layout/mask/prefix identities'),
+ 'C13': dict(text='SWTForward executed symbolically; per band element z3 shows equality with pywt.swt2; output structure (J tensors (N,C,4,H,W)); shift-equivariance as an exact identity between runs on permuted atoms.', ref='4 C13'),
+ 'C14': dict(text='DWTForward/DWTInverse built from two different wavelets (4-tuple) executed symbolically; z3 shows equality with PyWavelets called with one wavelet per axis, and (symbolic taps of different lengths) with the library\'s own functional afb2d/sfb2d.', ref='4 C14'),
+ 'C17': dict(text='from one symbolic forward run the exact matrix A is read off; z3 shows A^T A y = y, inverse(c) = A^T c and backprop(g) = A^T g = inverse(g) for every y, c, g (inner products/energy follow by polarisation); the repository\'s backward is driven by a tape model of autograd.', ref='4 C17'),
+ 'C18': dict(text='finite and exhaustive: every shipped table loaded through the real loader; each identity (equality with dtcwt.coeffs, symmetry, level-1 PR, q-shift orthonormality and time-reverse relations, reload equality) is a ground real-arithmetic assertion over the exact rational values discharged by z3.', ref='4 C18',
+             technique='exact rational evaluation of the identities + ground z3 real-arithmetic assertions (tolerance 1e-8), exhaustive over all tables'),
+ 'C19': dict(text='separable and non-separable one-level banks executed on the same input atoms, with concrete taps and with SYMBOLIC taps (one run covers every filter of those lengths); z3 shows the outputs equal for every input and every tap value; raise parity checked.', ref='4 C19'),
 }
 
 checks = []
